@@ -104,8 +104,8 @@ structure HInv (s : St) : Prop where
   wl : s.wlog = writesOf s.hist
   rw : ∀ c q, (s.callers c).bufSeq = some q → Evt.resWritten c ∈ s.hist
 
-theorem HInv_init : HInv init := by
-  constructor <;> simp [init]
+theorem HInv_init (f p : Nat → Nat) : HInv (initSz f p) := by
+  constructor <;> simp [initSz]
 
 set_option maxHeartbeats 1000000 in
 theorem HInv_step (s s' : St) (a : Act) (h : HInv s) (hs : step s a = some s') : HInv s' := by
